@@ -157,6 +157,62 @@ func c19run(c c19case, dir, shipped string) (r c19res) {
 	return
 }
 
+// ---- connStats (the verbose statistics module of main): every state transition of a connection,
+// for an ASN/country that is known or unknown, before and after the periodic PrintAndReset ----
+
+type c19connRes struct {
+	Transition string `json:"transition"`
+	Scenario   string `json:"scenario"` // fresh | created | created+reset | reset-only
+	V4         bool   `json:"v4"`
+	CC         string `json:"cc"`
+	Outcome    string `json:"outcome"` // ok | panic:<msg>
+}
+
+func TestVerifC19ConnStats(t *testing.T) {
+	if os.Getenv("VERIF_OUT") == "" {
+		t.Skip("no output file")
+	}
+	logger := log.New(io.Discard, "[C19] ", golog.Ldate)
+	var res []c19connRes
+	for _, scenario := range []string{"fresh", "created", "created+reset", "reset-only"} {
+		for _, v4 := range []bool{true, false} {
+			for _, cc := range []string{"US", ""} {
+				names := []string{"addCreated", "createdToDiscard", "createdToCheck", "createdToReset", "createdToTimeout", "createdToError", "createdToClose",
+					"readToCheck", "readToTimeout", "readToReset", "readToError", "checkToCreated", "checkToRead", "checkToFound", "checkToError", "checkToDiscard",
+					"discardToReset", "discardToTimeout", "discardToError", "discardToClose"}
+				for _, name := range names {
+					cm := newConnManager(nil)
+					c := cm.connStats
+					const asn = 64500
+					trans := map[string]func(uint, string, bool){
+						"addCreated": c.addCreated, "createdToDiscard": c.createdToDiscard, "createdToCheck": c.createdToCheck, "createdToReset": c.createdToReset,
+						"createdToTimeout": c.createdToTimeout, "createdToError": c.createdToError, "createdToClose": c.createdToClose,
+						"readToCheck": c.readToCheck, "readToTimeout": c.readToTimeout, "readToReset": c.readToReset, "readToError": c.readToError,
+						"checkToCreated": c.checkToCreated, "checkToRead": c.checkToRead, "checkToFound": c.checkToFound, "checkToError": c.checkToError,
+						"checkToDiscard": c.checkToDiscard, "discardToReset": c.discardToReset, "discardToTimeout": c.discardToTimeout,
+						"discardToError": c.discardToError, "discardToClose": c.discardToClose,
+					}
+					out := c19guard(func() {
+						if scenario == "created" || scenario == "created+reset" {
+							c.addCreated(asn, cc, v4)
+						}
+						if scenario == "created+reset" || scenario == "reset-only" {
+							cm.PrintAndReset(logger)
+						}
+						trans[name](asn, cc, v4)
+						cm.PrintAndReset(logger)
+					})
+					res = append(res, c19connRes{name, scenario, v4, cc, out})
+				}
+			}
+		}
+	}
+	out, _ := json.Marshal(res)
+	if err := os.WriteFile(os.Getenv("VERIF_OUT"), out, 0o644); err != nil {
+		t.Fatal(err)
+	}
+}
+
 func TestVerifC19Reload(t *testing.T) {
 	raw, err := os.ReadFile(os.Getenv("VERIF_CASES"))
 	if err != nil {
